@@ -60,7 +60,7 @@ func genCase(kind string) func(t *rapid.T) Case {
 		case "C06":
 			c.Full = rapid.IntRange(0, 2).Draw(t, "full6") != 0 // 1/3: timer callbacks may stay parked across the next call
 			behs = []string{"untilcancel", "untilcancel", "success", "error", "nilroutine"}
-			kinds = []string{"setkey", "setkey", "setkey", "removekey", "removekey", "synckeys", "synckeys", "getkey", "setctx", "advance", "advance", "advance"}
+			kinds = []string{"setkey", "setkey", "setkey", "removekey", "removekey", "synckeys", "synckeys", "getkey", "setctx", "advance", "advance", "advance", "reset", "restart"}
 		case "C06rc":
 			c.Full = rapid.IntRange(0, 2).Draw(t, "full6rc") != 0 // 1/3: mutex sections of concurrent calls interleave
 			c.RefCount = true
@@ -72,7 +72,17 @@ func genCase(kind string) func(t *rapid.T) Case {
 			behs = []string{"manual", "manual", "slowcancel", "slowcancel", "untilcancel", "error", "error", "success"}
 			kinds = []string{"setkey", "setkey", "removekey", "synckeys", "setctx", "setctx", "restart", "restart", "reset", "reset", "restartall", "resetall", "finish", "finish", "finish", "finish", "advance", "advance", "probe"}
 			if rapid.IntRange(0, 3).Draw(t, "hasbo") != 0 {
-				c.Backoff = rapid.SliceOfN(rapid.SampledFrom([]int{10, 10, 25, 50, -1}), 1, 3).Draw(t, "bo")
+				c.Backoff = rapid.SliceOfN(rapid.SampledFrom([]int{10, 10, 25, 50, -1, 0}), 1, 3).Draw(t, "bo")
+				// an all-zero script would retry a failing routine forever within one instant
+				allZero := true
+				for _, d := range c.Backoff {
+					if d != 0 {
+						allZero = false
+					}
+				}
+				if allZero {
+					c.Backoff = append(c.Backoff, 10)
+				}
 			}
 		}
 		c.Behs = rapid.SliceOfN(rapid.SampledFrom(behs), 1, 4).Draw(t, "behs")
@@ -107,7 +117,28 @@ func genCase(kind string) func(t *rapid.T) Case {
 			return op
 		})
 		c.Ops = rapid.SliceOfN(genOp, 4, ev.Pick(24, 80)).Draw(t, "ops")
-		if rapid.IntRange(0, 3).Draw(t, "prefix") != 0 {
+		if c.Delay && !c.RefCount && rapid.IntRange(0, 2).Draw(t, "pending") == 0 {
+			// construction instead of rejection: a call of another kind lands on a key whose
+			// delayed removal is pending, the key is released again and the delay runs out
+			k := key.Draw(t, "pkey")
+			var mid Op
+			switch rapid.SampledFrom(kinds).Draw(t, "pmid") {
+			case "restart", "restartall":
+				mid = Op{K: "restart", Key: k}
+			case "reset", "resetall":
+				mid = Op{K: "reset", Key: k}
+			case "synckeys":
+				mid = Op{K: "synckeys", Keys: []int{k}}
+			case "setctx":
+				mid = Op{K: "setctx", Ctx: "new", Restart: true}
+			default:
+				mid = Op{K: "setkey", Key: k, Start: true}
+			}
+			pre := []Op{{K: "setctx", Ctx: "new"}, {K: "setkey", Key: k, Start: true}, {K: "removekey", Key: k},
+				{K: "advance", D: rapid.IntRange(0, 6).Draw(t, "pd1")}, mid, {K: "removekey", Key: k},
+				{K: "advance", D: rapid.IntRange(6, len(advTable)-1).Draw(t, "pd2")}, {K: "advance", D: len(advTable) - 1}}
+			c.Ops = append(pre, c.Ops...)
+		} else if rapid.IntRange(0, 3).Draw(t, "prefix") != 0 {
 			c.Ops = append([]Op{{K: "setctx", Ctx: "new"}}, c.Ops...)
 		}
 		c.Sched = sched.GenSchedule(t, ev.Pick(150, 500))
@@ -388,9 +419,17 @@ func body(c *sched.Ctl, cs Case, v *ev.Verdict) {
 				}
 			case "keyed.timer.retry":
 				// the hook passes the record's data (1000 + record id)
-				c.LabelGoid(tk.Goid(), fmt.Sprintf("tr%d", tk.Obj.(int)-1000))
+				rid, tid := tk.Obj.(int)-1000, 0
+				if r, ok := m.byID[rid]; ok {
+					tid = m.BindCallback(true, r)
+				}
+				c.LabelGoid(tk.Goid(), fmt.Sprintf("tr%d.%d", rid, tid))
 			case "keyed.timer.remove":
-				c.LabelGoid(tk.Goid(), fmt.Sprintf("tm%d", tk.Obj.(int)-1000))
+				rid, tid := tk.Obj.(int)-1000, 0
+				if r, ok := m.byID[rid]; ok {
+					tid = m.BindCallback(false, r)
+				}
+				c.LabelGoid(tk.Goid(), fmt.Sprintf("tm%d.%d", rid, tid))
 			}
 		}
 	}
@@ -425,10 +464,10 @@ func body(c *sched.Ctl, cs Case, v *ev.Verdict) {
 			}
 			m.Exit(tok, err)
 		case strings.HasPrefix(tk.Label, "tr"), strings.HasPrefix(tk.Label, "tm"):
-			var id int
-			fmt.Sscanf(tk.Label[2:], "%d", &id)
+			var id, tid int
+			fmt.Sscanf(tk.Label[2:], "%d.%d", &id, &tid)
 			if r, ok := m.byID[id]; ok {
-				m.TimerSection(strings.HasPrefix(tk.Label, "tr"), r)
+				m.TimerSectionID(strings.HasPrefix(tk.Label, "tr"), r, tid)
 			} else {
 				fail("C06", "keyed:unknown-record-timer", "a timer callback ran for a record (id %d) the model never constructed", id)
 			}
@@ -459,9 +498,13 @@ func body(c *sched.Ctl, cs Case, v *ev.Verdict) {
 		}
 	}
 
+	var quiescent07 func(where string)
 	quiescent := func(where string) {
 		hm.Lock()
 		defer hm.Unlock()
+		// both parts are always evaluated: a key-set divergence (C06) must not hide an
+		// instance that is left running after its key's removal (C07), and vice versa
+		defer quiescent07(where)
 		// C06: key set and data
 		got := sortedCopy(getKeys())
 		want := m.sortedKeys()
@@ -501,6 +544,8 @@ func body(c *sched.Ctl, cs Case, v *ev.Verdict) {
 			fail("C06", "keyed:constructor-calls", "%s: the constructor was called %d times, the model implies %d", where, ctorCalls, len(m.all))
 			return
 		}
+	}
+	quiescent07 = func(where string) { // hm held
 		// C07
 		anyActive := map[int]bool{}
 		for _, in := range insts {
@@ -555,6 +600,11 @@ func body(c *sched.Ctl, cs Case, v *ev.Verdict) {
 					return
 				}
 				if !t.retry && m.removeEffective(t) {
+					for _, in := range insts {
+						if !in.returned && in.key == t.rec.key && in.ctx.Err() == nil {
+							fail("C07", "keyed:not-cancelled-after-delay", "%s: key %d was removed and its release delay has expired, but instance %d of that key still has a live context", where, t.rec.key, in.id)
+						}
+					}
 					fail("C06", "keyed:removal-lost", "%s: key %d: the release delay expired but the key was not removed", where, t.rec.key)
 					return
 				}
